@@ -177,6 +177,9 @@ class Op(Expr):
     def __str__(self):
         def bracket(arg, needed):
             s = str(arg)
+            if isinstance(arg, (ITE, Forall)):
+                # if-then-else and forall extend as far to the right as possible
+                return '(' + s + ')'
             return '(' + s + ')' if isinstance(arg, Op) and needed(arg.priority()) else s
 
         p = self.priority()
